@@ -291,7 +291,9 @@ def finish(pid, tier, seed, spec, merged, problems, distinct_hashed, wall, extra
         coverage.update(extra_cov)
     if merged["evaluations"] == 0 or distinct < 2:
         inconclusive.append("the run observed nothing (evaluations=%d distinct=%d)" % (merged["evaluations"], distinct))
-    if merged["evaluations"] > 0 and distinct >= 2:
+    if not merged["samples"]:
+        inconclusive.append("the workers recorded no sample case")
+    if merged["evaluations"] > 0 and distinct >= 2 and merged["samples"]:
         write_evidence(pid, tier, seed, spec["level"], coverage, wall, len(unknown), spec["assumptions"])
     if rc == 0 and inconclusive:
         for s in inconclusive:
